@@ -4,6 +4,7 @@
 //!   C10.cdt <PG|MPG>                  => ct <ok n TR…|err> co <ok n TR…|err> un <ok n TR…|err>
 //!   C10.mono <PG|MPG> Q x0 y0 step nx ny => n <k> (top <pts> bot <pts> poly <k> <ring>…)* pi <bits> mi <bits> pos (<chars>)*
 //!   C10.stitch <earcut|cdt> <PG|MPG>  => tris <ok n TR…|err> res <ok <MPG…>|err>
+//!   C10.monobuild <PG|MPG>            => n <k> (top <pts> bot <pts>)* | panic   (the pieces of monotone_subdivision, in order)
 //!
 //! `Q x0 y0 step nx ny`: the query lattice `(x0 + i*step, y0 + j*step)` (step = half a grid unit), `i < nx`, `j < ny`, row-major in
 //! `j` then `i`. `pi` = `polygon.intersects(c)`, `mi` = `MonotonicPolygons.intersects(c)` (one
@@ -202,6 +203,24 @@ fn gen_geom(rng: &mut Rng, allow_multi: bool) -> Geometry<f64> {
     }
 }
 
+/// 1..3 polygons of 1..2 rings of 3..7 arbitrary points of a small grid (nothing is valid on purpose)
+fn wild_geom(rng: &mut Rng) -> Geometry<f64> {
+    let k = rng.range(2, 5);
+    let mut ring = |rng: &mut Rng| {
+        let n = rng.range(3, 7);
+        LineString((0..n).map(|_| c(rng.range(0, k), rng.range(0, k))).collect::<Vec<_>>())
+    };
+    let np = rng.range(1, 3);
+    let polys: Vec<Polygon<f64>> = (0..np)
+        .map(|_| {
+            let ext = ring(rng);
+            let ints = if rng.chance(1, 3) { vec![ring(rng)] } else { vec![] };
+            Polygon::new(ext, ints)
+        })
+        .collect();
+    if polys.len() == 1 { Geometry::Polygon(polys[0].clone()) } else { Geometry::MultiPolygon(MultiPolygon(polys)) }
+}
+
 /// lattice covering the bounding box plus one step on every side, spacing 1/2 of the grid unit
 fn lattice(g: &Geometry<f64>) -> String {
     let b = match g.bounding_rect() {
@@ -223,6 +242,11 @@ fn lattice(g: &Geometry<f64>) -> String {
 }
 
 pub fn gen(rng: &mut Rng, _index: u64) -> String {
+    // the extra stream of ./check C10 (lib/props/C10.py: monobuild_stream): builder-vs-model cases only
+    if std::env::var("VERIF_C10_STREAM").map(|v| v == "monobuild").unwrap_or(false) {
+        let g = if rng.chance(1, 4) { wild_geom(rng) } else { gen_geom(rng, true) };
+        return format!("C10.monobuild {}", proto::geom(&g));
+    }
     match rng.below(10) {
         0 | 1 | 2 => {
             let g = gen_geom(rng, false);
@@ -234,7 +258,15 @@ pub fn gen(rng: &mut Rng, _index: u64) -> String {
         }
         5 | 6 | 7 => {
             let g = gen_geom(rng, true);
-            format!("C10.mono {} {}", proto::geom(&g), lattice(&g))
+            // one case in four of this stream compares the builder itself with its Lean model
+            if rng.chance(1, 4) {
+                // a quarter of these on arbitrary vertex sequences (crossings, overlaps, T-junctions, spikes):
+                // outside the property's domain, but the model mirrors the code there too, panics included
+                let g = if rng.chance(1, 4) { wild_geom(rng) } else { g };
+                format!("C10.monobuild {}", proto::geom(&g))
+            } else {
+                format!("C10.mono {} {}", proto::geom(&g), lattice(&g))
+            }
         }
         _ => {
             let which = if rng.chance(1, 2) { "earcut" } else { "cdt" };
@@ -356,6 +388,20 @@ fn eval_mono(t: &mut Toks) -> R<String> {
     Ok(s)
 }
 
+fn eval_monobuild(t: &mut Toks) -> R<String> {
+    let g = t.geom()?;
+    let subs = match g {
+        Geometry::Polygon(p) => geo::algorithm::monotone::monotone_subdivision([p]),
+        Geometry::MultiPolygon(p) => geo::algorithm::monotone::monotone_subdivision(p.0),
+        _ => return Err("monobuild needs PG or MPG".into()),
+    };
+    let mut s = format!("n {}", subs.len());
+    for m in &subs {
+        s.push_str(&format!(" top {} bot {}", proto::coords(&m.top().0), proto::coords(&m.bot().0)));
+    }
+    Ok(s)
+}
+
 fn eval_stitch(t: &mut Toks) -> R<String> {
     let which = t.tok()?;
     let g = t.geom()?;
@@ -382,6 +428,7 @@ pub fn eval(op: &str, t: &mut Toks) -> R<String> {
         "C10.cdt" => eval_cdt(t),
         "C10.mono" => eval_mono(t),
         "C10.stitch" => eval_stitch(t),
+        "C10.monobuild" => eval_monobuild(t),
         _ => Err(format!("unknown op {}", op)),
     }
 }
